@@ -1,7 +1,9 @@
 import Np.Model.PrintText
 import Np.Proofs.Text
 import Mathlib.Data.List.Basic
-/-! C16: the printed text of a polynomial with integer coefficients reads back as exactly its terms.
+/-! C16: the printed text of a polynomial reads back as exactly its terms - for every coefficient type whose texts are
+"safe tokens" (`Codec.Lawful`: an optional minus, then a non-empty text free of `+`, `-`, `*` that does not start with `q`,
+which the codec's reader reads back): integers (`intCodec_lawful`), and any other type whose `str()` meets that contract.
 Layers: (a) `readInt_showInt`, (b) `readFactor_factor`, (c) `readTerm_termStr`, (d) `readStr_renderStr`. -/
 namespace Np.PrintText
 open Np.Text Np.Print
@@ -54,6 +56,21 @@ theorem signFree_join (ps : List Str) (h : ∀ p ∈ ps, Alnum p) : SignFree (ps
   rcases List.mem_cons.1 hcp with rfl | hcp
   · simp [star, plus, minus]
   · exact (h p hp).signFree c hcp
+
+/-- free of `+`, `-` and `*`: what a coefficient text may consist of after its optional leading minus -/
+def Safe (s : Str) : Prop := ∀ c ∈ s, c ≠ plus ∧ c ≠ minus ∧ c ≠ star
+
+theorem Safe.not_star {s : Str} (h : Safe s) : star ∉ s := fun hm => (h _ hm).2.2 rfl
+theorem Safe.signFree {s : Str} (h : Safe s) : SignFree s := fun c hc => ⟨(h c hc).1, (h c hc).2.1⟩
+theorem Alnum.safe {s : Str} (h : Alnum s) : Safe s := by
+  intro c hc
+  rcases h c hc with h | h <;> simp only [plus, minus, star, qch] at * <;> omega
+
+/-- the contract of a coefficient codec: the reader reads back what the printer writes, and every coefficient text is
+an optional `-` followed by a non-empty safe text that does not start with `q` -/
+structure Codec.Lawful {C : Type} (K : Codec C) : Prop where
+  read_show : ∀ c, K.readC (K.showC c) = some c
+  shape : ∀ c, ∃ d ds, d ≠ qch ∧ Safe (d :: ds) ∧ (K.showC c = d :: ds ∨ K.showC c = minus :: d :: ds)
 
 /-! ### (a) integers -/
 
@@ -274,7 +291,7 @@ theorem buildExpo_row (es ns : List Nat) (hl : es.length = ns.length) (hn : ns.N
   rw [h1, distinct_of_nodup _ (nodup_nz_zip es ns hl hn)]
   simp [lookup_row es ns hl hn]
 
-theorem finish_row (es ns : List Nat) (c : Int) (hl : es.length = ns.length) (hn : ns.Nodup) :
+theorem finish_row {C : Type} (es ns : List Nat) (c : C) (hl : es.length = ns.length) (hn : ns.Nodup) :
     finish ns c ((nz (List.zip es ns)).map gOf) = some (c, es) := by
   have hF : ∀ en ∈ nz (List.zip es ns), en.1 ≠ 0 := by
     intro en h; simp only [nz, List.mem_filter] at h; simpa using h.2
@@ -285,10 +302,10 @@ theorem finish_row (es ns : List Nat) (c : Int) (hl : es.length = ns.length) (hn
 /-! ### (c) one term -/
 
 /-- what the printer's tokens satisfy (`printTokens_wf`) -/
-structure TokWF (names : List Nat) (t : Tok Int) : Prop where
+structure TokWF {C : Type} (K : Codec C) (names : List Nat) (t : Tok C) : Prop where
   len : t.expo.length = names.length
-  shown : t.coefShown = false ↔ (t.expo.any (· != 0) = true ∧ (t.coef = 1 ∨ t.coef = -1))
-  bare : t.bareMinus = true ↔ (t.coefShown = false ∧ t.coef = -1)
+  shown : t.coefShown = false ↔ (t.expo.any (· != 0) = true ∧ (t.coef = K.one ∨ t.coef = K.negOne))
+  bare : t.bareMinus = true ↔ (t.coefShown = false ∧ t.coef = K.negOne)
 
 theorem alnum_powPieces (e : Nat) : ∀ p ∈ powPieces e, Alnum p := by
   intro p hp
@@ -315,6 +332,15 @@ theorem showInt_cases (c : Int) : ∃ d ds, 48 ≤ d ∧ d ≤ 57 ∧ Alnum (d :
   · right; simp [h, hd]
   · left; simp [h, hd]; omega
 
+theorem intCodec_lawful : intCodec.Lawful where
+  read_show := readInt_showInt
+  shape := fun c => by
+    obtain ⟨d, ds, h1, h2, hal, hc⟩ := showInt_cases c
+    refine ⟨d, ds, by simp only [qch]; omega, hal.safe, ?_⟩
+    rcases hc with ⟨_, hc⟩ | ⟨_, hc⟩
+    · exact Or.inl hc
+    · exact Or.inr hc
+
 theorem nz_ne_nil : ∀ es ns : List Nat, es.length = ns.length → es.any (· != 0) = true → nz (List.zip es ns) ≠ []
   | [], _, _, h => by simp at h
   | _ :: _, [], h, _ => by simp at h
@@ -325,48 +351,50 @@ theorem nz_ne_nil : ∀ es ns : List Nat, es.length = ns.length → es.any (· !
     · simp [nz, he]
 
 /-- the text of a term whose coefficient is shown: the coefficient and the pieces, `*` in front of every piece -/
-theorem termStr_shown (names : List Nat) (t : Tok Int) (h : t.coefShown = true) :
-    termStr names t = showInt t.coef ++ ((nz (List.zip t.expo names)).flatMap pieces).flatMap (star :: ·) := by
-  obtain ⟨d, ds, _, _, _, hc⟩ := showInt_cases t.coef
+theorem termStr_shown {C : Type} (K : Codec C) (hK : K.Lawful) (names : List Nat) (t : Tok C) (h : t.coefShown = true) :
+    termStr K names t = K.showC t.coef ++ ((nz (List.zip t.expo names)).flatMap pieces).flatMap (star :: ·) := by
+  obtain ⟨d, ds, _, _, hc⟩ := hK.shape t.coef
   unfold termStr
   simp only [h, if_true]
   apply fold_sep
-  · rcases hc with ⟨_, hc⟩ | ⟨_, hc⟩ <;> simp [hc]
-  · rcases hc with ⟨_, hc⟩ | ⟨_, hc⟩ <;> simp [hc, minus]
-    omega
+  · rcases hc with hc | hc <;> simp [hc]
+  · rcases hc with hc | hc <;> simp [hc]
+    intro hd
+    exact absurd hd (‹Safe (d :: ds)› d (by simp)).2.1
 
 /-- the text of a term with elided coefficient: optional bare minus, then the factors -/
-theorem termStr_elided (names : List Nat) (t : Tok Int) (h : t.coefShown = false) (en : Nat × Nat)
+theorem termStr_elided {C : Type} (K : Codec C) (names : List Nat) (t : Tok C) (h : t.coefShown = false) (en : Nat × Nat)
     (F : List (Nat × Nat)) (hF : nz (List.zip t.expo names) = en :: F) :
-    termStr names t = ((if t.bareMinus then [minus] else []) ++ nameStr en.2)
+    termStr K names t = ((if t.bareMinus then [minus] else []) ++ nameStr en.2)
       ++ (powPieces en.1 ++ F.flatMap pieces).flatMap (star :: ·) := by
   unfold termStr
   simp only [h, Bool.false_eq_true, if_false]
   rw [fold_nosep _ _ (by cases t.bareMinus <;> simp), hF]
 
-theorem readTerm_termStr (names : List Nat) (hn : names.Nodup) (t : Tok Int) (wf : TokWF names t) :
-    readTerm names (termStr names t) = some (t.coef, t.expo) := by
-  have hfin := fun c => finish_row t.expo names c wf.len hn
+theorem readTerm_termStr {C : Type} (K : Codec C) (hK : K.Lawful) (names : List Nat) (hn : names.Nodup) (t : Tok C) (wf : TokWF K names t) :
+    readTerm K names (termStr K names t) = some (t.coef, t.expo) := by
+  have hfin := fun (c : C) => finish_row t.expo names c wf.len hn
   cases hs : t.coefShown with
   | true =>
-    obtain ⟨d, ds, h1, h2, hal, hc⟩ := showInt_cases t.coef
-    have hstar : star ∉ showInt t.coef := by
-      rcases hc with ⟨_, hc⟩ | ⟨_, hc⟩ <;> rw [hc]
+    obtain ⟨d, ds, hdq, hal, hc⟩ := hK.shape t.coef
+    have hdm : d ≠ minus := (hal d (by simp)).2.1
+    have hstar : star ∉ K.showC t.coef := by
+      rcases hc with hc | hc <;> rw [hc]
       · exact hal.not_star
       · have := hal.not_star
         simp only [List.mem_cons, not_or] at this ⊢
         exact ⟨by simp [star, minus], this⟩
-    have hrg := regroup_fp (nz (List.zip t.expo names)) (showInt t.coef) 1
+    have hrg := regroup_fp (nz (List.zip t.expo names)) (K.showC t.coef) 1
     simp only [powPieces, powOpt, Nat.lt_irrefl, if_false, List.nil_append, gt_iff_lt] at hrg
-    have hint := readInt_showInt t.coef
-    rw [termStr_shown names t hs, readTerm,
+    have hint := hK.read_show t.coef
+    rw [termStr_shown K hK names t hs, readTerm,
       splitSep_flat _ _ hstar (fun p hp => (alnum_pieces _ p hp).not_star), hrg]
-    rcases hc with ⟨_, hc⟩ | ⟨_, hc⟩
-    · have hq : (d == qch) = false := by simp [qch]; omega
-      have hm : (d == minus) = false := by simp [minus]; omega
+    rcases hc with hc | hc
+    · have hq : (d == qch) = false := by simpa using hdq
+      have hm : (d == minus) = false := by simpa using hdm
       rw [hc] at hint ⊢
       simp only [hq, hm, Bool.false_and, Bool.false_eq_true, if_false, hint, hfin]
-    · have hq : (d == qch) = false := by simp [qch]; omega
+    · have hq : (d == qch) = false := by simpa using hdq
       rw [hc] at hint ⊢
       simp only [List.head?_cons, hq, show (minus == qch) = false from rfl,
         Bool.and_false, Bool.false_eq_true, if_false, hint, hfin, Option.some_beq_some]
@@ -386,10 +414,10 @@ theorem readTerm_termStr (names : List Nat) (hn : names.Nodup) (t : Tok Int) (wf
         · exact (alnum_pieces _ p hp).not_star
       have hfin' := fun c => hfin c
       simp only [hF, List.map_cons, gOf] at hfin'
-      rw [termStr_elided names t hs en F hF, readTerm, splitSep_flat _ _ hx hps, hrg]
+      rw [termStr_elided K names t hs en F hF, readTerm, splitSep_flat _ _ hx hps, hrg]
       cases hb : t.bareMinus with
       | false =>
-        have : t.coef = 1 := by
+        have : t.coef = K.one := by
           rcases hcoef with h | h
           · exact h
           · exact absurd (wf.bare.2 ⟨hs, h⟩) (by simp [hb])
@@ -397,7 +425,7 @@ theorem readTerm_termStr (names : List Nat) (hn : names.Nodup) (t : Tok Int) (wf
         simp only [nameStr] at hfin'
         rw [hfin', this]
       | true =>
-        have : t.coef = -1 := (wf.bare.1 hb).2
+        have : t.coef = K.negOne := (wf.bare.1 hb).2
         simp only [if_true, nameStr, List.cons_append, List.nil_append, show (minus == qch) = false from rfl,
           Bool.false_eq_true, if_false, beq_self_eq_true, List.head?_cons, Bool.and_self]
         simp only [nameStr] at hfin'
@@ -406,16 +434,16 @@ theorem readTerm_termStr (names : List Nat) (hn : names.Nodup) (t : Tok Int) (wf
 /-! ### (d) the whole text -/
 
 /-- every term text is an optional `-` followed by a non-empty text free of `+` and `-` -/
-theorem termStr_shape (names : List Nat) (t : Tok Int) (wf : TokWF names t) :
-    ∃ b : Str, SignFree b ∧ b ≠ [] ∧ (termStr names t = b ∨ termStr names t = minus :: b) := by
+theorem termStr_shape {C : Type} (K : Codec C) (hK : K.Lawful) (names : List Nat) (t : Tok C) (wf : TokWF K names t) :
+    ∃ b : Str, SignFree b ∧ b ≠ [] ∧ (termStr K names t = b ∨ termStr K names t = minus :: b) := by
   cases hs : t.coefShown with
   | true =>
-    obtain ⟨d, ds, _, _, hal, hc⟩ := showInt_cases t.coef
+    obtain ⟨d, ds, _, hal, hc⟩ := hK.shape t.coef
     have hj := signFree_join _ (alnum_pieces (nz (List.zip t.expo names)))
     refine ⟨(d :: ds) ++ ((nz (List.zip t.expo names)).flatMap pieces).flatMap (star :: ·),
       hal.signFree.append hj, by simp, ?_⟩
-    rw [termStr_shown names t hs]
-    rcases hc with ⟨_, hc⟩ | ⟨_, hc⟩ <;> simp [hc]
+    rw [termStr_shown K hK names t hs]
+    rcases hc with hc | hc <;> simp [hc]
   | false =>
     obtain ⟨hany, _⟩ := wf.shown.1 hs
     cases hF : nz (List.zip t.expo names) with
@@ -429,25 +457,25 @@ theorem termStr_shape (names : List Nat) (t : Tok Int) (wf : TokWF names t) :
         · exact alnum_pieces _ p hp
       refine ⟨nameStr en.2 ++ (powPieces en.1 ++ F.flatMap pieces).flatMap (star :: ·),
         (alnum_name _).signFree.append hj, by simp [nameStr], ?_⟩
-      rw [termStr_elided names t hs en F hF]
+      rw [termStr_elided K names t hs en F hF]
       cases t.bareMinus <;> simp
 
 /-- what the loop over the terms appends for every term but the first -/
 def pre (s : Str) : Str := if startsMinus s then s else plus :: s
 
-theorem render_fold (names : List Nat) : ∀ (ts : List (Tok Int)) (acc : Str),
-    ts.foldl (renderStep names) (acc, true) = (acc ++ ts.flatMap (fun t => pre (termStr names t)), true)
+theorem render_fold {C : Type} (K : Codec C) (names : List Nat) : ∀ (ts : List (Tok C)) (acc : Str),
+    ts.foldl (renderStep K names) (acc, true) = (acc ++ ts.flatMap (fun t => pre (termStr K names t)), true)
   | [], acc => by simp
   | t :: ts, acc => by
     rw [List.foldl_cons]
-    have : renderStep names (acc, true) t = (acc ++ pre (termStr names t), true) := by
+    have : renderStep K names (acc, true) t = (acc ++ pre (termStr K names t), true) := by
       simp only [renderStep, pre, Bool.true_and]
-      cases startsMinus (termStr names t) <;> simp
-    rw [this, render_fold names ts]; simp
+      cases startsMinus (termStr K names t) <;> simp
+    rw [this, render_fold K names ts]; simp
 
-theorem renderStr_cons (names : List Nat) (t : Tok Int) (ts : List (Tok Int)) :
-    renderStr names (t :: ts) = termStr names t ++ ts.flatMap (fun t => pre (termStr names t)) := by
-  have : renderStep names ([], false) t = (termStr names t, true) := by simp [renderStep]
+theorem renderStr_cons {C : Type} (K : Codec C) (names : List Nat) (t : Tok C) (ts : List (Tok C)) :
+    renderStr K names (t :: ts) = termStr K names t ++ ts.flatMap (fun t => pre (termStr K names t)) := by
+  have : renderStep K names ([], false) t = (termStr K names t, true) := by simp [renderStep]
   simp only [renderStr, List.isEmpty_cons, Bool.false_eq_true, if_false, List.foldl_cons, this, render_fold]
 
 theorem splitSigns_signFree : ∀ (x rest : Str), SignFree x →
@@ -469,13 +497,13 @@ theorem pre_pos (b : Str) (hb : SignFree b) : pre b = plus :: b := by
 
 theorem pre_neg (b : Str) : pre (minus :: b) = minus :: b := by simp [pre, startsMinus]
 
-theorem splitSigns_tail (names : List Nat) : ∀ ts : List (Tok Int), (∀ t ∈ ts, TokWF names t) →
-    splitSigns (ts.flatMap fun t => pre (termStr names t)) = ([], ts.map (termStr names))
+theorem splitSigns_tail {C : Type} (K : Codec C) (hK : K.Lawful) (names : List Nat) : ∀ ts : List (Tok C), (∀ t ∈ ts, TokWF K names t) →
+    splitSigns (ts.flatMap fun t => pre (termStr K names t)) = ([], ts.map (termStr K names))
   | [], _ => rfl
   | t :: ts, h => by
-    have ih := splitSigns_tail names ts (fun x hx => h x (by simp [hx]))
-    obtain ⟨b, hb, _, hc⟩ := termStr_shape names t (h t (by simp))
-    have hsf := splitSigns_signFree b (ts.flatMap fun t => pre (termStr names t)) hb
+    have ih := splitSigns_tail K hK names ts (fun x hx => h x (by simp [hx]))
+    obtain ⟨b, hb, _, hc⟩ := termStr_shape K hK names t (h t (by simp))
+    have hsf := splitSigns_signFree b (ts.flatMap fun t => pre (termStr K names t)) hb
     rw [ih] at hsf
     simp only [List.flatMap_cons, List.map_cons]
     rcases hc with hc | hc
@@ -483,42 +511,42 @@ theorem splitSigns_tail (names : List Nat) : ∀ ts : List (Tok Int), (∀ t ∈
     · rw [hc, pre_neg, List.cons_append, splitSigns, hsf]; simp [plus, minus]
 
 /-- the lexer finds exactly the printed term texts -/
-theorem cutTerms_renderStr (names : List Nat) (toks : List (Tok Int)) (hne : toks ≠ [])
-    (h : ∀ t ∈ toks, TokWF names t) : cutTerms (renderStr names toks) = toks.map (termStr names) := by
+theorem cutTerms_renderStr {C : Type} (K : Codec C) (hK : K.Lawful) (names : List Nat) (toks : List (Tok C)) (hne : toks ≠ [])
+    (h : ∀ t ∈ toks, TokWF K names t) : cutTerms (renderStr K names toks) = toks.map (termStr K names) := by
   cases toks with
   | nil => exact absurd rfl hne
   | cons t ts =>
-    have ht := splitSigns_tail names ts (fun x hx => h x (by simp [hx]))
-    obtain ⟨b, hb, hbne, hc⟩ := termStr_shape names t (h t (by simp))
-    have hsf := splitSigns_signFree b (ts.flatMap fun t => pre (termStr names t)) hb
+    have ht := splitSigns_tail K hK names ts (fun x hx => h x (by simp [hx]))
+    obtain ⟨b, hb, hbne, hc⟩ := termStr_shape K hK names t (h t (by simp))
+    have hsf := splitSigns_signFree b (ts.flatMap fun t => pre (termStr K names t)) hb
     rw [ht] at hsf
-    rw [renderStr_cons, cutTerms]
+    rw [renderStr_cons K, cutTerms]
     rcases hc with hc | hc
     · rw [hc, hsf]; cases b with
       | nil => exact absurd rfl hbne
       | cons c cs => simp [hc]
     · rw [hc, List.cons_append, splitSigns, hsf]; simp [plus, minus, hc]
 
-theorem readTerms_map (names : List Nat) (hn : names.Nodup) : ∀ ts : List (Tok Int), (∀ t ∈ ts, TokWF names t) →
-    readTerms names (ts.map (termStr names)) = some (ts.map fun t => (t.coef, t.expo))
+theorem readTerms_map {C : Type} (K : Codec C) (hK : K.Lawful) (names : List Nat) (hn : names.Nodup) : ∀ ts : List (Tok C), (∀ t ∈ ts, TokWF K names t) →
+    readTerms K names (ts.map (termStr K names)) = some (ts.map fun t => (t.coef, t.expo))
   | [], _ => rfl
   | t :: ts, h => by
-    simp only [List.map_cons, readTerms, readTerm_termStr names hn t (h t (by simp)),
-      readTerms_map names hn ts (fun x hx => h x (by simp [hx]))]
+    simp only [List.map_cons, readTerms, readTerm_termStr K hK names hn t (h t (by simp)),
+      readTerms_map K hK names hn ts (fun x hx => h x (by simp [hx]))]
 
 /-- C16 (text): the printed text of a non-zero polynomial reads back as exactly its printed terms -/
-theorem readStr_renderStr (names : List Nat) (hn : names.Nodup) (toks : List (Tok Int)) (hne : toks ≠ [])
-    (h : ∀ t ∈ toks, TokWF names t) :
-    readStr names (renderStr names toks) = some (toks.map fun t => (t.coef, t.expo)) := by
-  rw [readStr, cutTerms_renderStr names toks hne h]
+theorem readStr_renderStr {C : Type} (K : Codec C) (hK : K.Lawful) (names : List Nat) (hn : names.Nodup) (toks : List (Tok C)) (hne : toks ≠ [])
+    (h : ∀ t ∈ toks, TokWF K names t) :
+    readStr K names (renderStr K names toks) = some (toks.map fun t => (t.coef, t.expo)) := by
+  rw [readStr, cutTerms_renderStr K hK names toks hne h]
   cases toks with
   | nil => exact absurd rfl hne
-  | cons t ts => exact readTerms_map names hn (t :: ts) h
+  | cons t ts => exact readTerms_map K hK names hn (t :: ts) h
 
 /-- the zero polynomial prints `0`, which reads back as the single constant term `0` -/
 theorem readStr_renderStr_nil (names : List Nat) :
-    readStr names (renderStr names []) = some [((0 : Int), names.map fun _ => 0)] := by
-  simp [renderStr, readStr, cutTerms, splitSigns, plus, minus, readTerms, readTerm, splitSep, star, regroup, qch,
+    readStr intCodec names (renderStr intCodec names []) = some [((0 : Int), names.map fun _ => 0)] := by
+  simp [renderStr, readStr, intCodec, cutTerms, splitSigns, plus, minus, readTerms, readTerm, splitSep, star, regroup, qch,
     readInt, ofDigits, finish, readFactors, buildExpo, distinct]
 
 /-! ### the printer's tokens are well formed -/
@@ -536,21 +564,21 @@ theorem mem_printOrder (g r i : Bool) (ts : List (Expo × Int)) (t : Expo × Int
 
 theorem printTokens_wf (names : List Nat) (g r i : Bool) (ts : List (Expo × Int))
     (hl : ∀ t ∈ ts, t.1.length = names.length) :
-    ∀ tok ∈ printTokens g r i ts, TokWF names tok ∧ tok.coef ≠ 0 := by
+    ∀ tok ∈ printTokens g r i ts, TokWF intCodec names tok ∧ tok.coef ≠ 0 := by
   intro tok htok
   simp only [printTokens, List.mem_map] at htok
   obtain ⟨t, ht, rfl⟩ := htok
   obtain ⟨hm, h0⟩ := mem_printOrder g r i ts t ht
   refine ⟨⟨hl t hm, ?_, ?_⟩, h0⟩
-  · by_cases h1 : t.2 = 1 <;> by_cases h2 : t.2 = -1 <;> cases t.1.any (· != 0) <;> simp [h1, h2]
-  · by_cases h1 : t.2 = 1 <;> by_cases h2 : t.2 = -1 <;> cases t.1.any (· != 0) <;> simp [h1, h2]
+  · by_cases h1 : t.2 = 1 <;> by_cases h2 : t.2 = -1 <;> cases t.1.any (· != 0) <;> simp [h1, h2, intCodec]
+  · by_cases h1 : t.2 = 1 <;> by_cases h2 : t.2 = -1 <;> cases t.1.any (· != 0) <;> simp [h1, h2, intCodec]
 
 /-- C16 end to end on the model: the text printed for the terms `ts` (display order and flags as in
 `Print.printTokens`) reads back as the non-zero terms in printing order -/
 theorem readStr_print (names : List Nat) (hn : names.Nodup) (g r i : Bool) (ts : List (Expo × Int))
     (hl : ∀ t ∈ ts, t.1.length = names.length) (hne : printOrder g r i ts ≠ []) :
-    readStr names (renderStr names (printTokens g r i ts)) = some ((printOrder g r i ts).map fun t => (t.2, t.1)) := by
-  rw [readStr_renderStr names hn _ (by simpa [printTokens] using hne)
+    readStr intCodec names (renderStr intCodec names (printTokens g r i ts)) = some ((printOrder g r i ts).map fun t => (t.2, t.1)) := by
+  rw [readStr_renderStr intCodec intCodec_lawful names hn _ (by simpa [printTokens] using hne)
     (fun t ht => (printTokens_wf names g r i ts hl t ht).1)]
   simp [printTokens, List.map_map, Function.comp_def]
 
